@@ -247,6 +247,346 @@ theorem chkCaps_complete (hwf : g.WF) (hac : isAcyclic g = true) (hfed : FedFrom
 
 end ChkCaps
 
+/-! ## What `clean_struct` leaves behind -/
+
+/-- the state after cleaning the units of `l1` (a prefix of the topological order of `g`) -/
+structure CleanInv (g : Graph N) (l1 : List N) (h : Graph N) : Prop where
+  names : h.names = g.names
+  edgesSub : ∀ e ∈ h.edges, e ∈ g.edges
+  untouched : ∀ e ∈ g.edges, e.2 ∉ l1 → e ∈ h.edges
+  shared : ∀ a b, (a, b) ∈ h.edges → b ∈ l1 → ∃ c, c ∈ h.capsOf a ∧ c ∈ h.capsOf b
+  fed : ∀ b ∈ l1, ∀ c ∈ h.capsOf b, (∀ a, (a, b) ∉ g.edges) ∨ ∃ a, (a, b) ∈ h.edges ∧ c ∈ h.capsOf a
+
+theorem cleanInv_step {g h : Graph N} {l1 l2 : List N} {u : N} (hT : topoOrder g = l1 ++ u :: l2)
+    (hi : CleanInv g l1 h) : CleanInv g (l1 ++ [u]) (cleanUnit h u) := by
+  have hnd := topoOrder_nodup g
+  have hfw := topoOrder_forward g
+  rw [hT] at hnd hfw
+  have hul1 : u ∉ l1 := fun hu => (List.nodup_append.1 hnd).2.2 u hu u List.mem_cons_self rfl
+  have hug : u ∈ g.names := topoOrder_subset g (by rw [hT]; simp)
+  have huh : u ∈ h.names := hi.names ▸ hug
+  have hloop : (u, u) ∉ g.edges := topoOrder_no_loop g (by rw [hT]; simp)
+  have hback : ∀ b ∈ l1, (u, b) ∉ g.edges := by
+    intro b hb
+    exact (List.pairwise_append.1 hfw).2.2 b hb u List.mem_cons_self
+  -- sources of connections into processed units (or `u`) are not `u`
+  have hsrc : ∀ a b, (a, b) ∈ h.edges → (b ∈ l1 ∨ b = u) → a ≠ u := by
+    intro a b he hb hau
+    subst hau
+    rcases hb with hb | hb
+    · exact hback b hb (hi.edgesSub _ he)
+    · subst hb; exact hloop (hi.edgesSub _ he)
+  refine ⟨by rw [names_cleanUnit]; exact hi.names, ?_, ?_, ?_, ?_⟩
+  · intro e he
+    exact hi.edgesSub e (mem_edges_cleanUnit.1 he).1
+  · intro e he hn
+    rw [mem_edges_cleanUnit]
+    refine ⟨hi.untouched e he (fun h' => hn (List.mem_append_left _ h')), fun h2 => ?_⟩
+    exact absurd (List.mem_append_right _ (List.mem_singleton.2 h2)) hn
+  · intro a b he hb
+    rw [mem_edges_cleanUnit] at he
+    have hb' : b ∈ l1 ∨ b = u := by
+      rcases List.mem_append.1 hb with hb | hb
+      · exact Or.inl hb
+      · exact Or.inr (List.mem_singleton.1 hb)
+    have hau : a ≠ u := hsrc a b he.1 hb'
+    rw [capsOf_cleanUnit_ne hau]
+    rcases hb' with hb' | hb'
+    · have hbu : b ≠ u := fun h' => hul1 (h' ▸ hb')
+      rw [capsOf_cleanUnit_ne hbu]
+      exact hi.shared a b he.1 hb'
+    · subst hb'
+      obtain ⟨c, hc1, hc2⟩ := he.2 rfl
+      exact ⟨c, hc2, (mem_capsOf_cleanUnit_self huh).2 ⟨hc1, Or.inr ⟨a, he.1, hc2⟩⟩⟩
+  · intro b hb c hc
+    rcases List.mem_append.1 hb with hb | hb
+    · have hbu : b ≠ u := fun h' => hul1 (h' ▸ hb)
+      rw [capsOf_cleanUnit_ne hbu] at hc
+      rcases hi.fed b hb c hc with h1 | ⟨a, ha, hca⟩
+      · exact Or.inl h1
+      · right
+        have hau : a ≠ u := hsrc a b ha (Or.inl hb)
+        refine ⟨a, mem_edges_cleanUnit.2 ⟨ha, fun h2 => absurd h2 hbu⟩, ?_⟩
+        rw [capsOf_cleanUnit_ne hau]; exact hca
+    · have hb' := List.mem_singleton.1 hb
+      subst hb'
+      rw [mem_capsOf_cleanUnit_self huh] at hc
+      rcases hc.2 with h1 | ⟨p, hp, hcp⟩
+      · left
+        intro a ha
+        exact h1 a (hi.untouched _ ha hul1)
+      · right
+        have hpu : p ≠ b := hsrc p b hp (Or.inr rfl)
+        refine ⟨p, mem_edges_cleanUnit.2 ⟨hp, fun _ => ⟨c, hc.1, hcp⟩⟩, ?_⟩
+        rw [capsOf_cleanUnit_ne hpu]; exact hcp
+
+theorem cleanInv_foldl {g : Graph N} : ∀ (l2 l1 : List N) (h : Graph N), topoOrder g = l1 ++ l2 → CleanInv g l1 h →
+    CleanInv g (topoOrder g) (l2.foldl cleanUnit h)
+  | [], l1, h, hT, hi => by
+    simp at hT
+    rw [hT]; exact hi
+  | u :: l2, l1, h, hT, hi => by
+    simp only [List.foldl_cons]
+    exact cleanInv_foldl l2 (l1 ++ [u]) (cleanUnit h u) (by rw [hT]; simp) (cleanInv_step hT hi)
+
+theorem cleanInv_cleanStruct (g : Graph N) : CleanInv g (topoOrder g) (cleanStruct g) := by
+  unfold cleanStruct
+  apply cleanInv_foldl (topoOrder g) [] g rfl
+  exact ⟨rfl, fun e he => he, fun e he _ => he, fun a b _ hb => (by cases hb), fun b hb => (by cases hb)⟩
+
+/-- units connected after `clean_struct` share a capability -/
+theorem cleanStruct_shared {g : Graph N} (hwf : g.WF) (hac : isAcyclic g = true) {a b : N}
+    (he : (a, b) ∈ (cleanStruct g).edges) : ∃ c, c ∈ (cleanStruct g).capsOf a ∧ c ∈ (cleanStruct g).capsOf b := by
+  have hi := cleanInv_cleanStruct g
+  exact hi.shared a b he ((mem_topoOrder hac).2 (hwf.edgesIn _ (hi.edgesSub _ he)).2)
+
+/-- after `clean_struct` every capability of a unit that had predecessors is supported by a remaining predecessor -/
+theorem cleanStruct_fed {g : Graph N} (hac : isAcyclic g = true) {b c : N} (hc : c ∈ (cleanStruct g).capsOf b) :
+    b ∈ g.inPorts ∨ ∃ a, (a, b) ∈ (cleanStruct g).edges ∧ c ∈ (cleanStruct g).capsOf a := by
+  have hi := cleanInv_cleanStruct g
+  have hb : b ∈ g.names := hi.names ▸ mem_names_of_capsOf hc
+  rcases hi.fed b ((mem_topoOrder hac).2 hb) c hc with h | h
+  · exact Or.inl (Graph.mem_inPorts.2 ⟨hb, h⟩)
+  · exact Or.inr h
+
+/-! ## The final graph -/
+
+theorem Induced_capsOf {g' g : Graph N} (hi : g'.Induced g) (hg : g.names.Nodup) {u : N} (hu : u ∈ g'.names) :
+    g'.capsOf u = g.capsOf u := by
+  obtain ⟨n, hn, rfl⟩ := Graph.mem_names.1 hu
+  rw [Graph.capsOf_of_mem (hi.names_sublist.nodup hg) hn, Graph.capsOf_of_mem hg (hi.nodes.subset hn)]
+
+theorem Induced_node? {g' g : Graph N} (hi : g'.Induced g) (hg : g.names.Nodup) {u : N} (hu : u ∈ g'.names) :
+    g'.node? u = g.node? u := by
+  obtain ⟨n, hn, rfl⟩ := Graph.mem_names.1 hu
+  rw [Graph.node?_of_mem (hi.names_sublist.nodup hg) hn, Graph.node?_of_mem hg (hi.nodes.subset hn)]
+
+/-- a unit with a capability survives `rm_empty_units` -/
+theorem not_dead_of_capsOf {g : Graph N} (hn : g.names.Nodup) {u c : N} (hc : c ∈ g.capsOf u) :
+    u ∉ (g.nodes.filter (fun n => n.caps.isEmpty)).map (·.name) := by
+  intro hd
+  obtain ⟨n, hnf, rfl⟩ := List.mem_map.1 hd
+  rw [List.mem_filter] at hnf
+  rw [Graph.capsOf_of_mem hn hnf.1] at hc
+  have := hnf.2
+  rw [List.isEmpty_iff] at this
+  rw [this] at hc
+  cases hc
+
+theorem rmEmpty_induced {g : Graph N} (hwf : g.WF) : (rmEmpty g).Induced g :=
+  (Graph.Induced.refl hwf).removeNodes _
+
+theorem mem_names_rmEmpty {g : Graph N} (hn : g.names.Nodup) {u : N} :
+    u ∈ (rmEmpty g).names ↔ u ∈ g.names ∧ g.capsOf u ≠ [] := by
+  unfold rmEmpty
+  rw [Graph.mem_names_removeNodes]
+  constructor
+  · rintro ⟨hu, hd⟩
+    refine ⟨hu, ?_⟩
+    intro hc
+    apply hd
+    obtain ⟨n, hnn, rfl⟩ := Graph.mem_names.1 hu
+    rw [Graph.capsOf_of_mem hn hnn] at hc
+    exact List.mem_map.2 ⟨n, List.mem_filter.2 ⟨hnn, by simp [hc]⟩, rfl⟩
+  · rintro ⟨hu, hc⟩
+    refine ⟨hu, ?_⟩
+    obtain ⟨c, hc'⟩ := List.exists_mem_of_ne_nil _ hc
+    exact not_dead_of_capsOf hn hc'
+
+/-- `chk_terminals` removes a unit only after all its successors: the result is closed under predecessors -/
+theorem chkTerminals_predClosed {in0 out0 : List N} {fuel : Nat} {g1 g2 : Graph N} (hwf : g1.WF)
+    (h : chkTerminals in0 out0 fuel g1 = .ok g2) :
+    g2.Induced g1 ∧ ∀ a b, (a, b) ∈ g1.edges → b ∈ g2.names → a ∈ g2.names := by
+  refine chkTerminals_ok_inv
+    (P := fun g' => g'.Induced g1 ∧ ∀ a b, (a, b) ∈ g1.edges → b ∈ g'.names → a ∈ g'.names)
+    ?_ fuel g1 g2 ⟨Graph.Induced.refl hwf, fun a b he _ => (hwf.edgesIn _ he).1⟩ h
+  intro g' hP _
+  refine ⟨hP.1.removeNodes _, ?_⟩
+  intro a b he hb
+  rw [Graph.mem_names_removeNodes] at hb ⊢
+  have ha := hP.2 a b he hb.1
+  refine ⟨ha, ?_⟩
+  intro hdead
+  have hout := (List.mem_filter.1 hdead).1
+  rw [Graph.mem_outPorts] at hout
+  exact hout.2 b ((hP.1.edges (a, b)).2 ⟨he, ha, hb.1⟩)
+
+section Final
+variable {g g2 : Graph N} [LT N] [DecidableRel (α := N) (· < ·)]
+
+/-- the pieces of an accepting `prepare` -/
+theorem prepare_final (hwf : g.WF) (h : prepare g = .ok g2) :
+    isAcyclic g = true ∧ g2.WF ∧ isAcyclic g2 = true ∧ g2.Induced (rmEmpty (cleanStruct g)) ∧
+    (∀ a b, (a, b) ∈ (rmEmpty (cleanStruct g)).edges → b ∈ g2.names → a ∈ g2.names) ∧
+    chkCaps g2 = .ok () := by
+  obtain ⟨hac, hterm, _, hcaps⟩ := prepare_ok h
+  have hcs : (cleanStruct g).WF := hwf.cleanStruct
+  have h1 : (rmEmpty (cleanStruct g)).WF := hcs.rmEmpty
+  obtain ⟨hind, hclosed⟩ := chkTerminals_predClosed h1 hterm
+  have hwf2 : g2.WF := hind.WF h1
+  have hi := cleanInv_cleanStruct g
+  refine ⟨hac, hwf2, ?_, hind, hclosed, hcaps⟩
+  apply isAcyclic_sub hac hwf2.namesNodup
+  · intro u hu
+    have := (rmEmpty_induced hcs).names_sublist.subset (hind.names_sublist.subset hu)
+    rw [hi.names] at this
+    exact this
+  · intro e he
+    exact hi.edgesSub e ((rmEmpty_induced hcs).edgesSub.subset (hind.edgesSub.subset he))
+
+/-- in the final graph every capability of a unit is fed from an input port through supporting units -/
+theorem fedFromInputs_final (hwf : g.WF) (h : prepare g = .ok g2) : FedFromInputs g2 := by
+  obtain ⟨hac, hwf2, hac2, hind, hclosed, _⟩ := prepare_final hwf h
+  have hcs : (cleanStruct g).WF := hwf.cleanStruct
+  have h1 : (rmEmpty (cleanStruct g)).WF := hcs.rmEmpty
+  have hi := cleanInv_cleanStruct g
+  have hcaps : ∀ u ∈ g2.names, g2.capsOf u = (cleanStruct g).capsOf u := by
+    intro u hu
+    rw [Induced_capsOf hind h1.namesNodup hu,
+      Induced_capsOf (rmEmpty_induced hcs) hcs.namesNodup (hind.names_sublist.subset hu)]
+  have key : ∀ u ∈ g2.names, ∀ c ∈ g2.capsOf u, ∃ p ∈ g2.inPorts, ∃ r0,
+      (rgOfGraph g2).IsRoute c r0 ∧ r0.head? = some p ∧ r0.getLast? = some u := by
+    refine topo_pred_induction hac2 (P := fun u => ∀ c ∈ g2.capsOf u, ∃ p ∈ g2.inPorts, ∃ r0,
+      (rgOfGraph g2).IsRoute c r0 ∧ r0.head? = some p ∧ r0.getLast? = some u) ?_
+    intro u hu ih c hc
+    have hc' : c ∈ (cleanStruct g).capsOf u := hcaps u hu ▸ hc
+    rcases cleanStruct_fed hac hc' with hin | ⟨a, hae, hca⟩
+    · refine ⟨u, ?_, [u], ?_, rfl, rfl⟩
+      · rw [Graph.mem_inPorts] at hin ⊢
+        refine ⟨hu, fun a ha => hin.2 a ?_⟩
+        exact hi.edgesSub _ ((rmEmpty_induced hcs).edgesSub.subset (hind.edgesSub.subset ha))
+      · rw [isRoute_singleton]; simpa [rgOfGraph] using hc
+    · have hae1 : (a, u) ∈ (rmEmpty (cleanStruct g)).edges := by
+        unfold rmEmpty
+        rw [Graph.mem_edges_removeNodes]
+        exact ⟨hae, not_dead_of_capsOf hcs.namesNodup hca, not_dead_of_capsOf hcs.namesNodup hc'⟩
+      have ha2 : a ∈ g2.names := hclosed a u hae1 hu
+      have hae2 : (a, u) ∈ g2.edges := (hind.edges (a, u)).2 ⟨hae1, ha2, hu⟩
+      have hca2 : c ∈ g2.capsOf a := by rw [hcaps a ha2]; exact hca
+      obtain ⟨p, hp, r0, hr0, hh, hl⟩ := ih a ha2 hae2 c hca2
+      refine ⟨p, hp, r0 ++ [u], ⟨by simp, ?_, ?_⟩, ?_, by simp⟩
+      · intro x hx
+        rcases List.mem_append.1 hx with hx | hx
+        · exact hr0.2.1 x hx
+        · simp at hx; subst hx; simpa [rgOfGraph] using hc
+      · exact WalkR_snoc hr0.2.2 hl (by simpa [rgOfGraph] using hae2)
+      · cases r0 with
+        | nil => simp at hh
+        | cons x t => simpa using hh
+  intro u c hc
+  exact key u (mem_names_of_capsOf hc) c hc
+
+end Final
+
+/-! ## The processor object describes the final graph -/
+
+section MakeProc
+variable (fold : N → N) [LT N] [DecidableRel (α := N) (· < ·)]
+
+theorem mem_allUnits_makeProcessor {reg : List N} {g : Graph N} {p : Proc N} (hg : g.WF)
+    (h : makeProcessor fold reg g = some p) {m : UnitM N} :
+    m ∈ p.allUnits ↔ ∃ n ∈ g.nodes, m = mkModel fold reg n :=
+  by
+    rw [(makeProcessor_allUnits_perm fold hg.namesNodup h).mem_iff, List.mem_map]
+    constructor
+    · rintro ⟨n, hn, rfl⟩; exact ⟨n, hn, rfl⟩
+    · rintro ⟨n, hn, rfl⟩; exact ⟨n, hn, rfl⟩
+
+theorem supB_makeProcessor {reg : List N} {g : Graph N} {p : Proc N} (hg : g.WF)
+    (h : makeProcessor fold reg g = some p) (u c : N) : supB p u c = decide (c ∈ g.capsOf u) := by
+  rw [Bool.eq_iff_iff]
+  unfold supB
+  simp only [List.any_eq_true, Bool.and_eq_true, decide_eq_true_eq, mem_allUnits_makeProcessor fold hg h]
+  constructor
+  · rintro ⟨m, ⟨n, hn, rfl⟩, hname, hc⟩
+    have hname' : n.name = u := hname
+    have hc' : c ∈ n.caps := by simpa [mkModel] using hc
+    rw [← hname', Graph.capsOf_of_mem hg.namesNodup hn]
+    exact hc'
+  · intro hc
+    unfold Graph.capsOf at hc
+    split at hc
+    next n hn =>
+      obtain ⟨h1, h2⟩ := Graph.node?_some hn
+      exact ⟨mkModel fold reg n, ⟨n, h1, rfl⟩, h2, by simpa [mkModel] using hc⟩
+    · cases hc
+
+theorem lockB_makeProcessor {reg : List N} {g : Graph N} {p : Proc N} (hg : g.WF)
+    (h : makeProcessor fold reg g = some p) (t : LockType) (u : N) : lockB p t u = nodeLock g t u := by
+  rw [Bool.eq_iff_iff]
+  unfold lockB nodeLock
+  simp only [List.any_eq_true, Bool.and_eq_true, decide_eq_true_eq, mem_allUnits_makeProcessor fold hg h]
+  constructor
+  · rintro ⟨m, ⟨n, hn, rfl⟩, hname, hl⟩
+    have hname' : n.name = u := hname
+    rw [← hname', Graph.node?_of_mem hg.namesNodup hn]
+    cases t <;> simpa [mkModel] using hl
+  · intro hl
+    split at hl
+    next n hn =>
+      obtain ⟨h1, h2⟩ := Graph.node?_some hn
+      refine ⟨mkModel fold reg n, ⟨n, h1, rfl⟩, h2, ?_⟩
+      cases t <;> simpa [mkModel] using hl
+    · cases hl
+
+/-- the processor object built from the final graph is the same capability graph -/
+theorem rgEquiv_makeProcessor {reg : List N} {g : Graph N} {p : Proc N} (hg : g.WF)
+    (h : makeProcessor fold reg g = some p) : RGEquiv (rgOfGraph g) (rgOfProc p) := by
+  refine ⟨?_, ?_, ?_, ?_⟩
+  · intro u
+    exact (makeProcessor_procNames_perm fold hg.namesNodup h).mem_iff.symm
+  · intro a b
+    show decide ((a, b) ∈ g.edges) = edgeB p a b
+    rw [Bool.eq_iff_iff, decide_eq_true_eq, makeProcessor_edgeB fold hg h]
+  · intro u c
+    exact (supB_makeProcessor fold hg h u c).symm
+  · intro t u
+    exact (lockB_makeProcessor fold hg h t u).symm
+
+/-- the input boundary of the processor object: the units without incoming connection -/
+theorem inBoundary_makeProcessor {reg : List N} {g : Graph N} {p : Proc N} (hg : g.WF)
+    (h : makeProcessor fold reg g = some p) {m : UnitM N} (hm : m ∈ p.inBoundary) :
+    m.name ∈ g.inPorts ∧ m ∈ p.allUnits := by
+  have hcl := makeProcessor_classes fold hg.namesNodup h m.name
+  unfold Proc.inBoundary at hm
+  rw [Graph.mem_inPorts]
+  rcases List.mem_append.1 hm with hm | hm
+  · have := hcl.2.2.1.1 (List.mem_map.2 ⟨m, hm, rfl⟩)
+    refine ⟨⟨this.1, fun a ha => this.2.1 ⟨a, ha⟩⟩, ?_⟩
+    unfold Proc.allUnits
+    simp [hm]
+  · have := hcl.1.1 (List.mem_map.2 ⟨m, hm, rfl⟩)
+    refine ⟨⟨this.1, fun a ha => this.2.1 ⟨a, ha⟩⟩, ?_⟩
+    unfold Proc.allUnits
+    simp [hm]
+
+end MakeProc
+
+/-! ## Stage 1 facts about the nodes -/
+
+theorem addUnits_nodes_width (fold : N → N) : ∀ (us : List (UnitD N)) (names reg : List N)
+    (r : List (GNode N) × List N), addUnits fold us names reg = .ok r → ∀ n ∈ r.1, 0 < n.width
+  | [], _, _, r, h => by
+    simp only [addUnits, Except.ok.injEq] at h
+    subst h
+    intro n hn; cases hn
+  | u :: us, names, reg, r, h => by
+    simp only [addUnits] at h
+    split at h
+    · cases h
+    · split at h
+      · cases h
+      next hw =>
+        split at h
+        · cases h
+        next r' hr' =>
+          simp only [Except.ok.injEq] at h
+          subst h
+          intro n hn
+          rcases List.mem_cons.1 hn with rfl | hn
+          · simp only; omega
+          · exact addUnits_nodes_width fold us _ _ r' hr' n hn
+
 end LoaderBridge
 end Loader
 end ProcSim
